@@ -367,6 +367,43 @@ theorem error_sticky (c : Chain) (h : c.phase = .done .err) (more : List ChainEv
   | deliver x => exact hc
   | finalize => exact hc
 
+/-- from any state that has not failed: a failure at the end was produced by some enabled step -/
+theorem err_run_has_step (c : Chain) (hc : c.phase ≠ .done .err) (evs : List ChainEv)
+    (herr : (runEvs c evs).phase = .done .err) :
+    ∃ es o rest c', evs = es ++ ChainEv.step o :: rest ∧ chainStep (runEvs c es) o = some c' ∧
+      c'.phase = .done .err := by
+  induction evs generalizing c with
+  | nil => exact absurd herr hc
+  | cons e evs ih =>
+    rw [runEvs_cons] at herr
+    by_cases hnow : (applyEv c e).phase = .done .err
+    · cases e with
+      | step o =>
+        rcases applyEv_step_cases c o with ⟨_, h2⟩ | ⟨c', h1, h2⟩
+        · rw [h2] at hnow; exact absurd hnow hc
+        · rw [h2] at hnow; exact ⟨[], o, evs, c', rfl, h1, hnow⟩
+      | deliver x => exact absurd hnow hc
+      | finalize => exact absurd hnow hc
+    · obtain ⟨es, o, rest, c', h1, h2, h3⟩ := ih _ hnow herr
+      exact ⟨e :: es, o, rest, c', by rw [h1]; rfl, by rw [runEvs_cons]; exact h2, h3⟩
+
+/-- **T5** (exact form): a reachable chain is in `done err` iff somewhere in the history an ENABLED
+    step ended in `done err` — and that step had a failing fallible operation -/
+theorem failure_is_reported (total : Nat) (evs : List ChainEv) :
+    (runEvs (init total) evs).phase = .done .err ↔
+      ∃ es o rest c', evs = es ++ ChainEv.step o :: rest ∧
+        chainStep (runEvs (init total) es) o = some c' ∧ c'.phase = .done .err ∧
+        ¬ (o.initOk ∧ o.drawOk ∧ o.recordOk) := by
+  constructor
+  · intro herr
+    obtain ⟨es, o, rest, c', h1, h2, h3⟩ := err_run_has_step _ (by simp [init]) evs herr
+    exact ⟨es, o, rest, c', h1, h2, h3, err_step_failed _ o c' h2 h3⟩
+  · rintro ⟨es, o, rest, c', h1, h2, h3, _⟩
+    rw [h1, runEvs_append, runEvs_cons]
+    have : applyEv (runEvs (init total) es) (.step o) = c' := by simp [applyEv, h2]
+    rw [this]
+    exact error_sticky c' h3 rest
+
 /-- **T5**: the sampler reports an error iff the controller failed or some chain did -/
 theorem sampler_reports_error (ce : Bool) (results : List ChainRes) :
     samplerResult ce results = .err ↔ ce = true ∨ .err ∈ results := by
@@ -510,16 +547,10 @@ theorem not_started_blocks (c : Chain) (o1 o2 : Outcome) (steps : List Outcome)
     (hph : c.phase = .queued) (hmb : c.mailbox = [.pause]) (halive : c.alive = true)
     (hi : o1.initOk = true) :
     runEvs c ((o1 :: o2 :: steps).map .step) = { c with phase := .top (.cmd .pause), mailbox := [] } := by
-  obtain ⟨ph, mb, al, sl, n, pr, tot⟩ := c
-  simp only at hph hmb halive
-  subst hph hmb halive
-  have hb : blocked ({ phase := .top (.cmd .pause), mailbox := [], alive := true, slot := sl, n := n,
-      progress := pr, total := tot } : Chain) = true := by simp [blocked]
-  have e1 : applyEv ({ phase := .queued, mailbox := [.pause], alive := true, slot := sl, n := n,
-      progress := pr, total := tot } : Chain) (.step o1) =
-      ({ phase := .top (.cmd .pause), mailbox := [], alive := true, slot := sl, n := n,
-        progress := pr, total := tot } : Chain) := by
-    simp [applyEv, chainStep, tryRecv, hi]
+  have hb : blocked { c with phase := .top (.cmd .pause), mailbox := [] } = true := by
+    simp [blocked, halive]
+  have e1 : applyEv c (.step o1) = { c with phase := .top (.cmd .pause), mailbox := [] } := by
+    simp [applyEv, chainStep, tryRecv, hi, hph, hmb]
   rw [List.map_cons, runEvs_cons, e1]
   exact blocked_stable hb (o2 :: steps)
 
@@ -645,6 +676,7 @@ example : samplerResult false [.ok, .err, .ok] = .err ∧ samplerResult false [.
 #print axioms progress_agrees
 #print axioms complete_if_not_aborted
 #print axioms no_spurious_error
+#print axioms failure_is_reported
 #print axioms err_step_failed
 #print axioms draw_failure_fails
 #print axioms sampler_reports_error
